@@ -403,8 +403,22 @@ func c12MySQL(t *testing.T, plan *kernel.Plan, keepLog bool) *kernel.Result {
 			if plan.Sw("chunk") != 0 && n > 300 {
 				n = 251
 			}
+			if plan.Sw("big") == 1 {
+				n = []int{0xffffff - 20, 0xffffff - 5, 0xffffff, 0xffffff + 10}[int(op.Arg(3, 0))%4]
+				pw.maxSteps = 1 << 30
+			}
 			val := strings.Repeat("v", n)
 			prepared := op.Arg(2, 0) == 1
+			if part == 1 && plan.Sw("big") == 1 {
+				t2.Rows = append(t2.Rows, [][]byte{[]byte("1"), []byte(val), nil, []byte{}})
+				script = append(script,
+					Stmt{SQL: "SELECT id, note, b, c FROM t2 WHERE id = 1"},
+					Stmt{SQL: "SELECT id, note, b, c FROM t2 WHERE id = ?", Extended: true, Args: []interface{}{int64(1)}},
+					Stmt{SQL: "INSERT INTO t2 (id, note, b, c) VALUES (?, ?, NULL, '')", Extended: true, Args: []interface{}{int64(2), val}},
+					Stmt{SQL: "SELECT id FROM t2 WHERE id = 2"})
+				w.Probe("mysql-16MiB-boundary")
+				continue
+			}
 			if part == 1 {
 				t2.Rows = append(t2.Rows, [][]byte{[]byte(fmt.Sprint(i + 1)), []byte(val), nil, []byte{}})
 				t2.Rows = append(t2.Rows, [][]byte{[]byte(fmt.Sprint(1000 + i)), nil, []byte(val), []byte("x")})
